@@ -8,6 +8,7 @@ package racep
 
 import (
 	"fmt"
+	"github.com/gofrs/uuid"
 	"os"
 	"sync"
 	"testing"
@@ -68,7 +69,9 @@ func TestRacePass(t *testing.T) {
 		run(func() { c.Namespaces() })
 		run(func() { c.GCheck(apih.ProtoTuple(tup("o1", "p", "u")), 0) })
 		run(func() { c.GList(apih.ProtoQuery(&ketoapi.RelationQuery{Namespace: sp("n")}), 0, "") })
-		run(func() { c.GExpand(apih.ProtoSubject(nil, &ketoapi.SubjectSet{Namespace: "n", Object: "o1", Relation: "a"}), 3) })
+		run(func() {
+			c.GExpand(apih.ProtoSubject(nil, &ketoapi.SubjectSet{Namespace: "n", Object: "o1", Relation: "a"}), 3)
+		})
 		run(func() { c.GBatchCheck(nil, 0) })
 		run(func() { c.SyntaxCheck([]byte("class x implements Namespace {}")) })
 		wg.Wait()
@@ -97,6 +100,40 @@ func TestRacePass(t *testing.T) {
 					}
 				}
 			})
+		}
+		wg.Wait()
+		requests += 8 * 6
+		s.Settle()
+	}
+	// tenants with their OWN configuration source (Contextualizer.Config): requests of two tenants in flight at
+	// once, each under its limits
+	ta, tb := uuid.Must(uuid.FromString("aaaaaaaa-aaaa-4aaa-8aaa-aaaaaaaaaaaa")), uuid.Must(uuid.FromString("bbbbbbbb-bbbb-4bbb-8bbb-bbbbbbbbbbbb"))
+	for round := 0; round < rounds; round++ {
+		s := apih.NewServer(t, apih.Options{Namespaces: nss(), MultiTenant: true, Config: map[string]any{"limit.max_read_depth": 10},
+			TenantConfig: map[uuid.UUID]map[string]any{ta: {"limit.max_read_depth": 8}, tb: {"limit.max_read_depth": 2}}})
+		s.AddNetwork(ta)
+		s.AddNetwork(tb)
+		var wg sync.WaitGroup
+		for g := 0; g < 8; g++ {
+			g := g
+			wg.Add(1)
+			go func() {
+				defer wg.Done()
+				c := s.ClientFor([]uuid.UUID{ta, tb}[g%2])
+				for i := 0; i < 6; i++ {
+					o := fmt.Sprintf("o%d", (g+i)%3+1)
+					switch i % 4 {
+					case 0:
+						c.CheckGET(tup(o, "p", "u"), false, "")
+					case 1:
+						c.Expand(&ketoapi.SubjectSet{Namespace: "n", Object: o, Relation: "a"}, "")
+					case 2:
+						c.GCheck(apih.ProtoTuple(tup(o, "p", "u")), 0)
+					case 3:
+						c.Create(tupSet(o, "a", "o3", "a"))
+					}
+				}
+			}()
 		}
 		wg.Wait()
 		requests += 8 * 6
